@@ -1,10 +1,20 @@
 import AasVerif.Model.Xsd
 import AasVerif.Gen.Xsd
+import AasVerif.Gen.PatternShape
 namespace AasVerif.Drive.C14
 open AasVerif AasVerif.Xsd
 
 def optNat (s : String) : Option (Option Nat) :=
   if s == "n" then some none else s.toNat?.map some
+
+def showErr : PatternShape.Err → String
+  | .parse => "parse"
+  | .empty => "empty"
+  | .notAnchored => "not-anchored"
+  | .tooMany .start => "too-many-start"
+  | .tooMany .stop => "too-many-stop"
+  | .tooMany .dot => "too-many-dot"
+  | .nonGreedy => "non-greedy"
 
 def showOpt (name : String) : Option Nat → String
   | some n => " " ++ name ++ " " ++ toString n
@@ -13,6 +23,7 @@ def showOpt (name : String) : Option Nat → String
 /--
 * `simple <PRIM> <min|n> <max|n> <patterns>` → `type <ty>` | `base <ty> [pattern <text>] [minLength n] [maxLength n]` | `error` | `base <ty> pattern * [minLength n] [maxLength n]` (two or more patterns: one facet, text by greenery)
 * `list <min|n> <max|n>` → `occurs <min> <max|unbounded>`
+* `shape <pattern>` → `ok` | `err <kind>,<kind>…` (`_verify_patterns_anchored_at_start_and_end` for one pattern)
 -/
 def handle : List String → Option String
   | ["simple", prim, mn, mx, pats] => do
@@ -31,6 +42,11 @@ def handle : List String → Option String
     let mx ← optNat mx
     let o := listOccurs mn mx
     some ("occurs " ++ toString o.1 ++ " " ++ (match o.2 with | some b => toString b | none => "unbounded"))
+  | ["shape", p] => do
+    let p ← Text.dec p
+    some (match PatternShape.patternErrors Gen.PatternShape.checks p with
+      | [] => "ok"
+      | es => "err " ++ String.intercalate "," (es.map showErr))
   | _ => none
 
 end AasVerif.Drive.C14
